@@ -78,14 +78,14 @@ ClassAccessEntry(node) ==
   ELSE LET a == ClassAddress(node.v[1])
            sl == node.v[2]
        IN  IF sl.k # "arr" THEN Reject
-           ELSE LET scs == [i \in 1..Len(sl.v) |-> ClassFixedBytes(sl.v[i], 32)]
+           ELSE LET scs == Mat([i \in 1..Len(sl.v) |-> ClassFixedBytes(sl.v[i], 32)])
                 IN  [c |-> Worst({a.c} \cup {scs[i].c : i \in 1..Len(scs)}),
-                     v |-> [addr |-> a.v, slots |-> [i \in 1..Len(scs) |-> scs[i].v]], why |-> "bad_access_list"]
+                     v |-> [addr |-> a.v, slots |-> Mat([i \in 1..Len(scs) |-> scs[i].v])], why |-> "bad_access_list"]
 
 ClassAccessListNode(node) ==
   IF node.k # "arr" THEN Reject
-  ELSE LET es == [i \in 1..Len(node.v) |-> ClassAccessEntry(node.v[i])]
-       IN  [c |-> Worst({es[i].c : i \in 1..Len(es)}), v |-> [i \in 1..Len(es) |-> es[i].v], why |-> "bad_access_list"]
+  ELSE LET es == Mat([i \in 1..Len(node.v) |-> ClassAccessEntry(node.v[i])])
+       IN  [c |-> Worst({es[i].c : i \in 1..Len(es)}), v |-> Mat([i \in 1..Len(es) |-> es[i].v]), why |-> "bad_access_list"]
 
 ClassAccessList(doc, kind) ==
   IF ~HasKey(doc, "accessList") THEN Accepted(<<>>)                          \* only possible for 1559
@@ -122,8 +122,8 @@ Parse(doc) ==
 RlpU(bn) == RlpB(BnNorm(bn))
 ToItem(tx) == IF tx.to = <<>> THEN RlpB(<<>>) ELSE RlpB(tx.to[1])
 AccessListItem(al) ==
-  RlpL([i \in 1..Len(al) |->
-       RlpL(<<RlpB(al[i].addr), RlpL([j \in 1..Len(al[i].slots) |-> RlpB(al[i].slots[j])])>>)])
+  RlpL(Mat([i \in 1..Len(al) |->
+       RlpL(<<RlpB(al[i].addr), RlpL(Mat([j \in 1..Len(al[i].slots) |-> RlpB(al[i].slots[j])]))>>)]))
 
 BodyItems(tx) ==
   IF tx.kind = "legacy" THEN
